@@ -13,7 +13,7 @@ GEN = ("rapid state machine: a generated valid genesis (fees, allowlist, allowed
        "re-spelled amounts, amounts beyond 34 digits; some configurations have a populated genesis (>100 classes/projects/issuers) or a vesting account; ")
 DIST = " Distinct = distinct (step kind, accepted?) sequences."
 
-def stateful(test, rule, quick=4000, thorough=100000, qsteps=40, tsteps=70, extra=None, qtimeout=900):
+def stateful(test, rule, quick=4000, thorough=80000, qsteps=40, tsteps=70, extra=None, qtimeout=900):
     d = {
         "test": test, "rule": GEN + rule + DIST, "assumptions": list(STATEFUL_ASSUMPTIONS),
         "quick": {"checks": quick, "steps": qsteps, "shards": 8, "timeout": qtimeout, "shrink": "15s"},
@@ -101,7 +101,7 @@ CHECKS = {
     "C16": stateful("TestC16",
         "configurations: production hasher, MinLength 1/2/8, and weak hashes with k in {1,2,3,16} distinct outputs (incl. repeated-byte outputs) injected through the verif build-tag hook; histories of Anchor/Attest/DefineResolver/RegisterResolver over a pool of 14 content hashes. "
         "After every step: DataID is a growing bijection id<->iri that never changes, anchor timestamp == block time of first anchoring forever, attestations written once, resolver rows and registrations never lost or changed, responses return stored iri/timestamp, only managers register to private resolvers. "
-        "Non-trivial = >=3 IRIs share a probe prefix AND an IRI is re-anchored in a later block.", quick=4800, thorough=120000),
+        "Non-trivial = >=3 IRIs share a probe prefix AND an IRI is re-anchored in a later block.", quick=4800, thorough=100000),
     "C17": stateful("TestC17",
         "custom steps 'query' and 'get': 27 list queries (filter argument present / absent / prefix-of-present; page sizes 1,2,3,5,n-1,n,n+1,1000; forward and reverse) walked by key and by offset through the real GRPCQueryRouter and compared as multisets and as sequences with a brute-force filter over the snapshot, "
         "totals checked on count_total requests, requests without a page or with an unset limit checked against the default page of 100; 11 single-entity queries compared with the stored rows. Genesis may contain prefix-colliding ids (C10/C100, C10-100/C10-1000). "
